@@ -102,6 +102,38 @@ let () =
         else if not Model.classification_no_stale then "stale-entry"
         else if not Model.reset_fields_modelled then "reset-field-not-modelled"
         else "ok");
+  (* c17.widen signed bits phys raw,raw,... -> the bit patterns stored in a column of
+     physical width phys for Go values of the kind (signed, bits) (Reset/Ints.v) *)
+  register "c17.widen" (function
+    | [sg; bits; phys; raws] ->
+        tok_of_list hex_of_z (Model.widen_column (bool_of_tok sg) (z_of_hex bits) (z_of_hex phys) (list_of_tok z_of_hex raws))
+    | _ -> failwith "c17.widen args");
+  (* c17.geostats v,v,... -> the geospatial statistics of a row group holding these non-null
+     values (Reset/Geo.v).  v = B (unparseable) | code:empty:x:y:z:m  with a bound = N (NaN) |
+     min~max, and z, m also _ (the layout has no such dimension); numbers are hex keys *)
+  register "c17.geostats" (function
+    | [vals] ->
+        let range s = match String.split_on_char '~' s with
+          | [a; b] -> (z_of_hex a, z_of_hex b) | _ -> failwith ("range: " ^ s) in
+        let bound s = if s = "N" then None else Some (range s) in
+        let dim s = if s = "_" then None else Some (bound s) in
+        let value s =
+          if s = "B" then Model.GBad else
+          match String.split_on_char ':' s with
+          | [code; empty; x; y; z; m] ->
+              Model.GGeom { Model.g_code = n_of_hex code; g_empty = bool_of_tok empty; g_x = bound x; g_y = bound y;
+                            g_z = dim z; g_m = dim m }
+          | _ -> failwith ("value: " ^ s) in
+        let show_range (a, b) = hex_of_z a ^ "~" ^ hex_of_z b in
+        (match Model.row_group_stats (list_of_tok value vals) with
+         | None -> "none"
+         | Some st ->
+             let types = tok_of_list hex_of_n st.Model.gs_types in
+             (match st.Model.gs_bbox with
+              | None -> Printf.sprintf "types=%s nobbox" types
+              | Some bb -> Printf.sprintf "types=%s x=%s y=%s z=%s m=%s" types (show_range bb.Model.bb_x) (show_range bb.Model.bb_y)
+                             (tok_of_opt show_range bb.Model.bb_z) (tok_of_opt show_range bb.Model.bb_m)))
+    | _ -> failwith "c17.geostats args");
   register "c17.classify" (function
     | [s; f] -> ocaml_string (Model.classify_name (coq_string s) (coq_string f))
     | _ -> failwith "c17.classify args")
